@@ -406,6 +406,201 @@ def tglf_id_relation(g):
     return 'first-lacking %s max-ext' % ('<' if d < 0 else '==' if d == 0 else '>')
 
 
+# ----------------------------------------------------------------------------------------- subset transforms (mode sub)
+# pair states (xgt ygt xst yst xgap*4 ygap*4) whose printed form is changed by every one of the 7 transforms (xgt != ygt; a
+# negated gap always shows, the sign bit is printed)
+SUB_PAIRS = ['0 1 2 1 +8 -12', '1 0 1 2 -20 +4', '0 1 1 2 +0 +8', '1 0 2 1 -0 -4', '0 1 2 2 +200 +0', '1 0 1 1 +4 +12',
+             '0 1 0 2 +0 -8', '1 0 2 0 +36 +0', '0 1 2 1 -4 -4', '1 0 2 2 +12 +12']
+SUB_FORMAT = ('one case per line: <rows> | <ops>; rows = ";"-separated "i : j xgt ygt xst yst xgap*4 ygap*4 , j ..." (raw node ids, '
+              'i < j, built with setSepPair; "i :" = a row left empty by SepMatrix::free); ops = ";"-separated "O t id ..." = '
+              'Graph::transformOpenSubset(t, {ids}), "C t id ..." = Graph::transformClosedSubset, t = index into [%s]; output: '
+              'D | i j xgt ygt xst yst xgap*4 ygap*4 | ... | r <first ids of m_sparseLookup>' % ','.join(TF))
+
+
+def sub_line(rows, ops):
+    """rows: {i: {j: pair text}} ({} = empty row); ops: [(kind, t, ids)]"""
+    rs = ' ; '.join(('%d : %s' % (i, ' , '.join('%d %s' % (j, rows[i][j]) for j in sorted(rows[i])))).strip() for i in sorted(rows))
+    os_ = ' ; '.join(' '.join([k, str(t)] + [str(x) for x in sorted(set(ids))]) for (k, t, ids) in ops)
+    return rs + ' | ' + os_
+
+
+def sub_parse_case(line):
+    rows_t, ops_t = line.split('|')
+    rows, ops = {}, []
+    for r in rows_t.split(';'):
+        if ':' not in r:
+            continue
+        i, cells = r.split(':')
+        rows[int(i)] = {}
+        for c in cells.split(','):
+            f = c.split()
+            if len(f) == 7:
+                rows[int(i)][int(f[0])] = ' '.join(f[1:])
+    for o in ops_t.split(';'):
+        f = o.split()
+        if len(f) >= 2:
+            ops.append((f[0], int(f[1]), [int(x) for x in f[2:]]))
+    return rows, ops
+
+
+def sub_parse_dump(txt):
+    """'D | i j pair | ... | r k k ...' -> ({(i,j): pair text}, [row keys])"""
+    pairs, keys = {}, []
+    for seg in txt.split(' | ')[1:]:
+        f = seg.split()
+        if f and f[0] == 'r':
+            keys = [int(x) for x in f[1:]]
+        elif len(f) >= 8:
+            pairs[(int(f[0]), int(f[1]))] = ' '.join(f[2:])
+    return pairs, keys
+
+
+def sub_nonmonotone(rows, ids):
+    """the case split of the second pass of transformOpenSubset (where a set iterator shared between the rows would go wrong): two
+    first ids outside the set, the earlier one with a partner (in the set or not) LARGER than a partner in the set of the later one"""
+    S = set(ids)
+    outs = [i for i in sorted(rows) if i not in S]
+    for a in range(len(outs)):
+        if not rows[outs[a]]:
+            continue
+        top = max(rows[outs[a]])
+        for b in range(a + 1, len(outs)):
+            if any(j < top for j in rows[outs[b]] if j in S):
+                return True
+    return False
+
+
+def gen_subset(rng, tier):
+    """[(family, case line)].  Families:
+    exhaustive5   a fixed family of matrices over 5 ids (full upper triangle, the A/B/C/D matrix of seeded C18-5 with and without an
+                  empty row, crossing / nested partner patterns, star, column, staircase, empty rows) + random ones with random id
+                  tables: ALL 32 id subsets x 7 transforms x {open, closed}
+    ascending     random larger matrices; the rows outside the set have all their partners in the set, in ascending order from row to
+                  row (a set iterator shared between the rows of the second pass would still be right here)
+    nonmonotone   ... an earlier row outside the set has a partner in the set LARGER than a partner in the set of a later row (the
+                  pattern on which the rows of the second pass must each restart at ids.cbegin())
+    random        random sparse matrices and sets (ids foreign to the matrix, empty rows, two ops in sequence)
+    edge          empty set, full set, set entirely below / above the first ids, empty matrix, only empty rows"""
+    cases = []
+    k = [0]
+
+    def pair(rnd=False):
+        if rnd and rng.chance(1, 2):
+            allg = ['-12', '-8', '-2', '-0', '+0', '+2', '+8', '+12', '+200']
+            return '%d %d %d %d %s %s' % (rng.below(2), rng.below(2), rng.below(3), rng.below(3), rng.choice(allg), rng.choice(allg))
+        k[0] += 1
+        return SUB_PAIRS[k[0] % len(SUB_PAIRS)]
+
+    def mat(shape, U):
+        return {U[i]: {U[j]: pair() for j in js} for i, js in shape.items()}
+
+    fixed = [
+        ('full', {i: list(range(i + 1, 5)) for i in range(4)}),
+        ('abcd', {0: [3], 1: [2]}),
+        ('abcd+emptyrow', {0: [3], 1: [2], 2: []}),
+        ('crossing', {0: [4], 1: [3], 2: [3]}),
+        ('nested', {0: [2, 4], 1: [3], 2: [3, 4]}),
+        ('star', {0: [1, 2, 3, 4]}),
+        ('column', {i: [4] for i in range(4)}),
+        ('stairs', {i: [i + 1] for i in range(4)}),
+        ('holes', {0: [], 1: [2, 4], 3: [4]}),
+    ]
+    mats = [(name, mat(shape, list(range(5))), list(range(5))) for name, shape in fixed]
+    for r in range(8 if tier == 'quick' else 40):
+        U = sorted(rng.shuffle(list(range(30)))[:5])
+        shape = {}
+        for i in range(4):
+            if rng.chance(3, 4):
+                shape[i] = [j for j in range(i + 1, 5) if rng.chance(1, 2)]
+        mats.append(('random%d' % r, mat(shape, U), U))
+    for name, rows, U in mats:
+        for mask in range(32):
+            ids = [U[b] for b in range(5) if mask & (1 << b)]
+            for t in range(7):
+                for kind in 'OC':
+                    cases.append(('exhaustive5:' + name, sub_line(rows, [(kind, t, ids)])))
+    n_exh = len(cases)
+    for r in range(6000 if tier == 'quick' else 60000):
+        fam = ('ascending', 'nonmonotone', 'random', 'nonmonotone', 'random', 'edge')[r % 6]
+        n = rng.range(4, 12)
+        U = sorted(rng.shuffle(list(range(40)))[:n])
+        rows = {}
+        if fam in ('ascending', 'nonmonotone'):
+            # set = a random part of the upper half of the ids (plus possibly lower ones), rows outside the set get partners in it
+            S = set(u for u in U[1:] if rng.chance(1, 2))
+            if len(S) < 2:
+                S = set(U[-2:])
+            outs = [u for u in U if u not in S]
+            ins = sorted(S)
+            if fam == 'ascending':
+                lo = 0
+                for i in outs:
+                    cand = [j for j in ins[lo:] if j > i]
+                    if cand and rng.chance(4, 5):
+                        js = sorted(rng.shuffle(cand)[:rng.range(1, 2)])
+                        rows.setdefault(i, {})
+                        for j in js:
+                            rows[i][j] = pair(True)
+                        lo = ins.index(js[-1])
+            else:
+                # a < b outside the set, c < d in it, pairs (a,d) and (b,c)
+                quad = None
+                for _ in range(20):
+                    if len(outs) < 2:
+                        break
+                    a, b = sorted(rng.shuffle(list(outs))[:2])
+                    cd = [j for j in ins if j > b]
+                    if len(cd) >= 2:
+                        c, d = sorted(rng.shuffle(cd)[:2])
+                        quad = (a, b, c, d)
+                        break
+                if quad is None:
+                    a, b, c, d = U[0], U[1], U[-2], U[-1]
+                    S = set(S) | {c, d}
+                    S.discard(a); S.discard(b)
+                else:
+                    a, b, c, d = quad
+                rows.setdefault(a, {})[d] = pair(True)
+                rows.setdefault(b, {})[c] = pair(True)
+            # unrelated extra cells
+            for _ in range(rng.range(0, n)):
+                i, j = sorted(rng.shuffle(list(U))[:2])
+                if fam == 'ascending' and i not in S:
+                    continue                         # rows outside the set keep the ascending pattern
+                rows.setdefault(i, {}).setdefault(j, pair(True))
+            ids = sorted(S)
+        elif fam == 'random':
+            for i in U[:-1]:
+                if rng.chance(2, 3):
+                    rows[i] = {j: pair(True) for j in U if j > i and rng.chance(1, 3)}
+            ids = [u for u in U if rng.chance(1, 2)] + [rng.below(45) for _ in range(rng.below(3))]
+        else:
+            for i in U[:-1]:
+                if rng.chance(1, 2):
+                    rows[i] = {j: pair(True) for j in U if j > i and rng.chance(1, 3)}
+            mode = rng.below(6)
+            if mode == 0:
+                ids = []
+            elif mode == 1:
+                ids = list(U)
+            elif mode == 2:
+                ids = [u + 41 for u in U[:3]]            # above every id of the matrix
+            elif mode == 3:
+                rows = {i + 10: {j + 10: v for j, v in r_.items()} for i, r_ in rows.items()}
+                ids = [rng.below(10) for _ in range(3)]  # below every id of the matrix
+            elif mode == 4:
+                rows = {}
+                ids = list(U[:2])
+            else:
+                rows = {i: {} for i in U[:-1] if rng.chance(1, 2)}
+                ids = [u for u in U if rng.chance(1, 2)]
+        ops = [(rng.choice('OOC'), rng.below(7), ids)]
+        if fam != 'ascending' and rng.chance(1, 5):
+            ops.append((rng.choice('OC'), rng.below(7), [u for u in U if rng.chance(1, 2)]))
+        cases.append((fam, sub_line(rows, ops)))
+    return cases, n_exh, len(mats)
+
+
 # ----------------------------------------------------------------------------------------- the check
 def run(tier):
     res = C.Result(PID, tier, 'proof')
@@ -651,6 +846,107 @@ def run(tier):
                   'two_request_sequences_over_all_mutator_overloads': n_ext - n_exh, 'random_sequences': len(seqs) - n_ext - n_corpus,
                   'corpus_sequences': n_corpus, 'ops_by_kind': opkinds, 'dump_pairs_decided_by_sep_equivb': cov_equiv,
                   'sequences_where_old_stale_flag_model_differs': sum(1 for i in range(len(seqs)) if pm[i] != po[i])}
+
+    # ---- 3b. transformClosedSubset / transformOpenSubset on arbitrary sparse matrices (mode sub): the real result against the
+    # declarative specification (extracted spec_open / spec_closed: AT LEAST ONE / BOTH nodes in the set - this decides VIOLATION)
+    # and against the loop model SepSubsetModel.v (correspondence; proved equal to the specification on well-formed input)
+    sub_cases, sub_exh, sub_mats = gen_subset(rng.fork(), tier)
+    corpus_sub = os.path.join(C.VERIF, 'corpus', 'c18_subset.json')
+    n_corpus_sub = 0
+    if os.path.exists(corpus_sub):
+        cs_ = json.load(open(corpus_sub))
+        n_corpus_sub = len(cs_)
+        sub_cases = [('corpus', e['case']) for e in cs_] + sub_cases          # the corpus runs first
+    sf = os.path.join(tmp, 'sub.txt')
+    with open(sf, 'w') as fh:
+        fh.write('\n'.join(c[1] for c in sub_cases) + '\n')
+    rc, s_cpp, err, dt = C.sh([exe, 'sub', sf], timeout=900)
+    if rc != 0:
+        return fail_harness('harness c18_sep sub failed', rc, err)
+    rc, s_mod, err, dt = C.sh([drv, 'sub', sf], timeout=900)
+    sa, sb = L(s_cpp), L(s_mod)
+    subcov = {'cases': len(sub_cases), 'corpus_cases': n_corpus_sub, 'exhaustive_cases_5_ids_all_subsets_7_transforms_open_and_closed': sub_exh,
+              'exhaustive_matrices': sub_mats, 'by_family': {}, 'open_ops': 0, 'closed_ops': 0,
+              'open_cases_with_nonmonotone_partner_pattern': 0, 'cases_with_empty_rows': 0, 'cases_with_set_ids_foreign_to_the_matrix': 0,
+              'cases_where_the_hoisted_iterator_model_differs_from_the_specification': 0, 'cases_where_something_is_transformed': 0,
+              'cases_where_something_stays': 0}
+    if len(sa) != len(sub_cases) or len(sb) != len(sub_cases):
+        corr_diffs.append({'section': 'sub', 'what': 'line counts differ', 'harness': len(sa), 'model': len(sb), 'cases': len(sub_cases),
+                           'stderr': err[-500:]})
+    else:
+        sub_fail = []
+        for i, (fam, line) in enumerate(sub_cases):
+            evals += 1
+            f0 = fam.split(':')[0]
+            subcov['by_family'][f0] = subcov['by_family'].get(f0, 0) + 1
+            parts = sb[i].split(' # ')
+            if len(parts) != 4 or not parts[0].startswith('M ') or not parts[1].startswith('S '):
+                corr_diffs.append({'section': 'sub', 'what': 'model driver output malformed', 'case': line, 'model': sb[i]})
+                continue
+            M, S_, H, W = parts[0][2:], parts[1][2:], parts[2][2:], parts[3]
+            rows, ops = sub_parse_case(line)
+            for (kd, t, ids) in ops:
+                subcov['open_ops' if kd == 'O' else 'closed_ops'] += 1
+            if any(kd == 'O' and sub_nonmonotone(rows, ids) for (kd, t, ids) in ops[:1]):
+                subcov['open_cases_with_nonmonotone_partner_pattern'] += 1
+            if any(not r_ for r_ in rows.values()):
+                subcov['cases_with_empty_rows'] += 1
+            allids = set(rows) | set(j for r_ in rows.values() for j in r_)
+            if any(x not in allids for (kd, t, ids) in ops for x in ids):
+                subcov['cases_with_set_ids_foreign_to_the_matrix'] += 1
+            if H != S_:
+                subcov['cases_where_the_hoisted_iterator_model_differs_from_the_specification'] += 1
+                hb = subcov.setdefault('hoisted_iterator_model_differs_by_family', {})
+                hb[f0] = hb.get(f0, 0) + 1
+            before = {(a, b): v for a, r_ in rows.items() for b, v in r_.items()}
+            want, wkeys = sub_parse_dump(S_)
+            if any(want.get(k_) != v for k_, v in before.items()):
+                subcov['cases_where_something_is_transformed'] += 1
+            if any(want.get(k_) == v for k_, v in before.items()):
+                subcov['cases_where_something_stays'] += 1
+            if W != 'W 1 1 1 1' and len(corr_diffs) < 5:
+                corr_diffs.append({'section': 'sub', 'what': 'the generator produced an input outside the hypotheses of the theorems '
+                                   '(keys_ascb rows_ascb upperb ascb)', 'case': line, 'wf': W})
+            if sa[i] != S_:
+                sub_fail.append((len(before) + sum(len(o[2]) for o in ops) + 10 * (len(ops) - 1), i))
+            elif (sa[i] != M or M != S_) and len(corr_diffs) < 5:
+                corr_diffs.append({'section': 'sub', 'case': line, 'implementation': sa[i], 'loop_model': M, 'specification': S_})
+        if sub_fail:
+            sub_fail.sort()
+            i = sub_fail[0][1]
+            fam, line = sub_cases[i]
+            parts = sb[i].split(' # ')
+            M, S_, H = parts[0][2:], parts[1][2:], parts[2][2:]
+            rows, ops = sub_parse_case(line)
+            got, gkeys = sub_parse_dump(sa[i])
+            want, wkeys = sub_parse_dump(S_)
+            before = {(a, b): v for a, r_ in rows.items() for b, v in r_.items()}
+            wrong = []
+            for k_ in sorted(set(got) | set(want)):
+                if got.get(k_) != want.get(k_):
+                    wrong.append({'pair': list(k_), 'in_set_per_op': [[k_[0] in o[2], k_[1] in o[2]] for o in ops], 'before': before.get(k_),
+                                  'expected': want.get(k_), 'got': got.get(k_),
+                                  'left_untransformed': got.get(k_) == before.get(k_)})
+            kd, t, ids = ops[0]
+            descr = ', '.join('(%d,%d) %s' % (w['pair'][0], w['pair'][1],
+                                              'left untransformed' if w['left_untransformed'] else 'wrongly changed') for w in wrong[:4])
+            res.violation({
+                'what': 'SepMatrix::%s must transform exactly the pairs with %s in the given set and leave every other pair alone '
+                        '(constraints.h:282-295; Coq C18_transform%sSubset_spec): %s(%s, {%s}) - pair %s%s'
+                        % ('transformOpenSubset' if kd == 'O' else 'transformClosedSubset',
+                           'AT LEAST ONE node' if kd == 'O' else 'BOTH nodes', 'Open' if kd == 'O' else 'Closed',
+                           'transformOpenSubset' if kd == 'O' else 'transformClosedSubset', TF[t], ','.join(str(x) for x in sorted(ids)), descr,
+                           '' if gkeys == wkeys else '; first ids of the map changed'),
+                'family': fam, 'case': line, 'case_format': SUB_FORMAT, 'ops': [{'op': o[0], 'transform': TF[o[1]], 'set': sorted(o[2])} for o in ops],
+                'wrong_pairs': wrong[:10], 'implementation': sa[i], 'specification': S_, 'loop_model_of_HEAD': M,
+                'matches_model_with_hoisted_set_iterator': sa[i] == H,
+                'failing_cases': len(sub_fail),
+                'failing_cases_by_family': {f_: sum(1 for (_, j) in sub_fail if sub_cases[j][0].split(':')[0] == f_)
+                                            for f_ in sorted(set(sub_cases[j][0].split(':')[0] for (_, j) in sub_fail))},
+                'replay': 'echo "%s" | %s sub    (prints the stored pairs after the call; compare with `specification`)'
+                          % (line, os.path.relpath(exe, C.VERIF))})
+            prop_viol += 1
+    cov['subset'] = subcov
 
     # ---- 4. TGLF round trip (V)
     graphs = gen_tglf(rng.fork(), tier)
